@@ -273,9 +273,23 @@ func (timeoutError) Temporary() bool { return true }
 func (s *Sim) dialTCP(ctx context.Context, addr string, timeout time.Duration) (net.Conn, error) {
 	sess := "?"
 	s.mu.Lock()
-	if x, ok := s.dialBy[simrt.Goid()]; ok {
+	me := simrt.Goid()
+	// which session dials: the goroutine that reads the client's datagrams is the one that dials
+	// (structure), or the handler said so in its log right before (text); accept order otherwise
+	x, ok := "", false
+	for _, lk := range s.links {
+		if lk.gw != nil && lk.gw.ReaderGoid() == me {
+			x, ok = lk.sessName(), true
+		}
+	}
+	if y, ok2 := s.dialBy[me]; ok2 {
+		if !ok {
+			x, ok = y, true
+		}
+		delete(s.dialBy, me)
+	}
+	if ok {
 		sess = x
-		delete(s.dialBy, simrt.Goid())
 		for i, p := range s.pendingDial {
 			if p == sess {
 				s.pendingDial = append(s.pendingDial[:i:i], s.pendingDial[i+1:]...)
